@@ -650,6 +650,33 @@ def fin_ack_lost_cases():
     return out
 
 
+def retx_budget_cases():
+    """Deterministic family (always emitted, C06): one and the same data segment is lost on every transmission until
+    exactly retx_max copies are gone (the script drops whatever the writer emits for th*(mx-1)+1 (+1) egress rounds; the
+    oracle counts the copies really dropped and judges only runs with at most retx_max of them), then the wire is clean.
+    The stack transmits a segment retx_max + 1 times before it gives up, so the next copy arrives: nobody is aborted,
+    the bytes and end-of-file arrive (seed C06-A8: budget one attempt short)."""
+    out = []
+    for (th, mx, swap) in [(2, 2, True), (2, 3, False), (3, 2, True), (3, 3, False), (2, 1, False)]:     # th >= 2: the ACK's round trip takes two egress rounds
+        for extra in (0, 1):
+            cfg = full_cfg({"retx_threshold": th, "retx_max": mx, "backlog": 4, "send_cap": 64, "recv_cap": 64})
+            sc = Script()
+            ls, cs, as_ = handshake(sc)
+            w, rd = (cs, as_) if not swap else (as_, cs)
+            sc.add(["write", w, [82, 69, 84, 88]])
+            for _ in range(th * (mx - 1) + 1 + extra):
+                sc.add(E, ["drop", 0])
+            for _ in range(th * (mx + 2) + 6):
+                sc.add(E, ["flush"], ["read", rd, 64], ["read", w, 64])
+            sc.add(["shutdown", w], ["shutdown", rd])
+            for _ in range(8):
+                sc.add(E, ["flush"], ["read", rd, 64], ["read", w, 64])
+            sc.add(["read", rd, 8], ["read", w, 8], ["rows", 0], ["rows", 1], ["netstat", 0], ["netstat", 1])
+            out.append({"cfg": cfg, "script": sc.s, "flavour": "retx_budget",
+                        "plan": {"w": w, "r": rd, "both": True, "fair_from": 0, "drops": mx, "ls": ls, "max_drops": mx}})
+    return out
+
+
 def udp_boundary_cases():
     """Deterministic family (always emitted, C16): UDP payload sizes at the MTU boundary of the destination's path
     and at / beyond the 16-bit boundary (65507..65537, 70000, 131072+k with k inside the limit), through every send
